@@ -48,6 +48,7 @@ type c19Mangle struct {
 type c19Op struct {
 	// 0 ReadCoils 1 ReadDiscreteInputs 2 ReadHoldingRegs 3 ReadInputRegs 4 WriteSingleCoil 5 WriteSingleReg
 	// 6 a raw frame handed to the server by the harness (Raw), bypassing the client
+	// 7 the application adds register Addr to the server's map while it is serving (Regs.AddReg)
 	Op   int       `json:"op"`
 	ID   int       `json:"unit"`
 	Addr int       `json:"addr"`
@@ -485,6 +486,10 @@ func c19RunSession(c *c19Case) {
 		l.mangle, l.op = c19Mangle{}, warm
 		c19Call(cl, warm)
 	}
+	addrs := make([]int, 0, len(c.Regs)) // the registers of the map, in the order they were added
+	for _, r := range c.Regs {
+		addrs = append(addrs, r.Addr)
+	}
 	for _, o := range c.Ops {
 		o.ReqSent, o.ReqDeliv, o.RespSent, o.RespDeliv = nil, nil, nil, nil
 		o.ReqDelivered, o.RespWritten, o.RespDelivered = false, false, false
@@ -494,6 +499,18 @@ func c19RunSession(c *c19Case) {
 			c19RawCall(ct, o)
 			continue
 		}
+		if o.Op == 7 {
+			o.Class, o.Values, o.Err = 0, []int{}, ""
+			regs.AddReg(o.Addr, 1)
+			known := false
+			for _, a := range addrs {
+				known = known || a == o.Addr
+			}
+			if !known {
+				addrs = append(addrs, o.Addr)
+			}
+			continue
+		}
 		c19Call(cl, o)
 	}
 	select {
@@ -501,9 +518,9 @@ func c19RunSession(c *c19Case) {
 		c.ServerPanic = l.panicMsg
 	default:
 	}
-	c.After = make([]int, len(c.Regs))
-	for i, r := range c.Regs {
-		v, err := regs.ReadReg(r.Addr)
+	c.After = make([]int, len(addrs))
+	for i, a := range addrs {
+		v, err := regs.ReadReg(a)
 		c.After[i] = int(v)
 		if err != nil {
 			c.After[i] = 0xfffff
@@ -1108,6 +1125,30 @@ func c19GenSession(r *rand.Rand) *c19Case {
 	return c
 }
 
+// a register map that grows while the server is in use: a register is read, the application adds registers
+// (enough for the map's storage to move), the client writes the first register, touches another one and reads
+// the first one back
+func c19GenGrow(r *rand.Rand) *c19Case {
+	c := &c19Case{Kind: "session", TCP: r.Intn(2) == 0, SID: 1}
+	n := 1 + r.Intn(4)
+	for i := 0; i < n; i++ {
+		c.Regs = append(c.Regs, c19Reg{Addr: i, Val: r.Intn(65536)})
+	}
+	first := r.Intn(n)
+	c.Ops = append(c.Ops, &c19Op{Op: 2 + r.Intn(2), ID: 1, Addr: first, Arg: 1})
+	for k := 0; k < 2+r.Intn(8); k++ {
+		c.Ops = append(c.Ops, &c19Op{Op: 7, Addr: 100 + k})
+	}
+	if r.Intn(2) == 0 {
+		c.Ops = append(c.Ops, &c19Op{Op: 5, ID: 1, Addr: first, Arg: r.Intn(65536)})
+	} else {
+		c.Ops = append(c.Ops, &c19Op{Op: 4, ID: 1, Addr: first*16 + r.Intn(16), Arg: r.Intn(2)})
+	}
+	c.Ops = append(c.Ops, &c19Op{Op: 2, ID: 1, Addr: 100 + r.Intn(2), Arg: 1}, &c19Op{Op: 2, ID: 1, Addr: first, Arg: 1},
+		&c19Op{Op: 0, ID: 1, Addr: first * 16, Arg: 16})
+	return c
+}
+
 // transaction id wrap: 65534.. exchanges before the calls of the case
 func c19GenWrap(r *rand.Rand, warm int) *c19Case {
 	c := &c19Case{Kind: "session", TCP: true, SID: 1, Warm: warm}
@@ -1265,6 +1306,9 @@ func c19Main(cfg *config) error {
 		}
 		for _, w := range []int{65534, 65535} {
 			cases = append(cases, c19GenWrap(r, w))
+		}
+		for i := 0; i < 30*cfg.scale; i++ {
+			cases = append(cases, c19GenGrow(r))
 		}
 		for i := 0; i < 12*cfg.scale; i++ {
 			cases = append(cases, c19GenMaxFrames(r, i%2 == 0))
